@@ -508,6 +508,12 @@ def order_query(rnd, rows, pkcol="a"):
     if rnd.random() < 0.7:
         q["lim"] = rnd.choice([0, 1, 2, 5, 9, -1])
         q["off"] = rnd.choice([0, 0, 1, 2, 5, 13])
+    if pkcol != "a" and rnd.random() < 0.5:
+        # the key is not the first column: scans that prune the columns in front of it and rely on key order
+        cols = [("col", "x1", pkcol, G.INT)] + ([("col", "x1", "c", G.STR)] if rnd.random() < 0.6 else [])
+        q["sel"] = [(e, f"c{i + 1}") for i, e in enumerate(cols)]
+        q["where"] = None
+        q["ord"] = [(0, "asc")] + ([(1, "desc")] if len(cols) > 1 and rnd.random() < 0.3 else [])
     return q
 
 
@@ -550,7 +556,7 @@ def layout_cases(seed, n, mkquery, pk_mode, dup_keys=False):
     for i in range(n):
         pk = pk_mode if isinstance(pk_mode, bool) else rnd.random() < 0.6
         # the key is not always the first column
-        pkcol = "b" if pk and rnd.random() < 0.3 else "a"
+        pkcol = "b" if pk and rnd.random() < 0.4 else "a"
         steps, rows = layout_history(rnd, pk, dup_keys=dup_keys, pkcol=pkcol)
         qs = [mkquery(rnd, rows, pkcol) for _ in range(4)]
         cases.append({"pk": pk, "pkcol": pkcol, "steps": steps, "rows": rows, "queries": qs,
@@ -690,14 +696,19 @@ def seq_case(rnd):
     """A statement sequence over t1 (maybe primary key / NOT NULL), t2, t3 with DML and queries."""
     pk = rnd.random() < 0.5
     nn = rnd.random() < 0.4
-    ddl = [f"create table t1(a int{' primary key' if pk else ''}, b int{' not null' if nn else ''}, c varchar)",
+    # the primary key is not always the first column
+    pkb = pk and rnd.random() < 0.45
+    if pkb:
+        nn = True
+    ddl = [f"create table t1(a int{' primary key' if pk and not pkb else ''}, "
+           f"b int{' primary key' if pkb else (' not null' if nn else '')}, c varchar)",
            "create table t2(a int, b int, c varchar)", "create table t3(a int, b int)"]
     steps = [{"sql": s, "kind": "ddl"} for s in ddl]
     # (no subqueries here: with the real, small row counts of the disk engine their plans panic -- Q8)
     used_keys = set()
     # primary keys are not enforced unique: half of the key tables get runs of equal keys that span several
     # blocks of one row-set (the key-range scan has to find both ends of such a run)
-    dup = pk and rnd.random() < 0.5
+    dup = pk and not pkb and rnd.random() < 0.5
     # (tables of that size are queried without joins: the reference evaluation by TLC is a nested loop)
     g = G.Gen(rnd, joins=not dup, feat=dict(ENVELOPE, subq=(), derived=0.0 if dup else 0.2))
     for _ in range(rnd.choice([5, 7, 9])):
@@ -734,13 +745,16 @@ def seq_case(rnd):
             t = rnd.choice(["t1", "t1", "t2", "t3"])
             rows = []
             for _ in range(rnd.choice([1, 2, 3, 5])):
-                if t == "t1" and pk:
+                if t == "t1" and pk and not pkb:
                     a = rnd.choice([x for x in range(0, 30) if x not in used_keys] + [None] * (1 if rnd.random() < 0.1 else 0))
                     if a is not None:
                         used_keys.add(a)
                 else:
                     a = rnd.choice(G.INTS)
                 b = rnd.choice(G.INTS if not (t == "t1" and nn) or rnd.random() < 0.1 else [0, 1, 2, 3])
+                if t == "t1" and pkb:
+                    b = rnd.choice([x for x in range(0, 30) if x not in used_keys])
+                    used_keys.add(b)
                 row = [a, b] if t == "t3" else [a, b, rnd.choice(G.STRS)]
                 rows.append(row)
             steps.append({"sql": f"insert into {t} values " + ", ".join(
@@ -755,6 +769,15 @@ def seq_case(rnd):
             steps.append({"sql": f"delete from {t} where {col} {op} {rnd.choice([0, 1, 2, 3, 7])}", "kind": "dml"})
         elif k < 0.72:
             steps.append({"op": "compact", "kind": "env"})
+        elif pkb and k < 0.92:
+            # scans that prune the column in front of the key and rely on key order
+            A = lambda c, ty=G.INT: ("col", "x1", c, ty)
+            sel = [(A("b"), "c1")] + ([(A("c", G.STR), "c2")] if rnd.random() < 0.6 else [])
+            q = dict(sel=sel, frm=("t", "t1", "x1"), where=None, grp=[], hav=None, agg=False, dist=False,
+                     ord=[(0, "asc")], lim=-1, off=0)
+            if rnd.random() < 0.3:
+                q = dict(q, sel=[(A("b"), "c1"), (("agg", "count*"), "c2")], grp=[A("b")], agg=True, ord=[])
+            steps.append({"sql": G.sql_query(q), "kind": "query", "q": q})
         else:
             q = g.query()
             steps.append({"sql": G.sql_query(q), "kind": "query", "q": q})
